@@ -1565,6 +1565,98 @@ def rule_rewind_changes_state(prog, fixture=False):
     return r
 
 
+# ---------------------------------------------------------------- R-C07-15
+def rule_bitstream_access(prog, fixture=False):
+    r = RuleResult("R-C07-15", "BitStream: raw storage is indexed only under a bound on the raw bit count itself; the "
+                   "cooked accessor getbit(), whose callers bound their index by size() - a quotient of an unsigned "
+                   "difference that wraps for an empty track - is reached only after a scan_for call has succeeded "
+                   "(which an empty track cannot make happen)", floor=0 if fixture else 4)
+    fns = list(prog.functions.values())
+    scan_like = set()           # functions that (transitively) call scan_for: their result witnesses non-empty data
+    changed = True
+    while changed:
+        changed = False
+        for f in fns:
+            if f.uid in scan_like:
+                continue
+            for n in f.walk():
+                if is_call(n) and (notpl(n.get("q") or "").endswith("::scan_for") or
+                                   any(t.uid in scan_like for t in prog.call_targets(f, n))):
+                    scan_like.add(f.uid)
+                    changed = True
+                    break
+    # (1) rawbit(e): bound on raw_bit_size_ at the call, or the caller is getbit (the unchecked cooked accessor)
+    for f in fns:
+        g = None
+        for n in f.walk():
+            if not is_call(n) or not notpl(n.get("q") or "").endswith("BitStream::rawbit"):
+                continue
+            if f.name == "getbit":
+                continue
+            g = g or Guards(f)
+            a = call_args(n)
+            ok = False
+            for l, rel, rr in (g.cmps(n) or []):
+                if rel == "<" and a and same_expr(l, a[0]) and (strip_all(rr) or {}).get("n") == "raw_bit_size_":
+                    ok = True
+            r.add("%s::%s::rawbit" % (f.relfile(), f.qn), f.loc(n), ok, "index < raw_bit_size_" if ok else
+                  "rawbit(%s) without a dominating test against raw_bit_size_: reads beyond the track data" % show(a[0])[:30])
+    # (2) getbit: every chain of callers passes a point dominated by a successful scan
+    def witnessed(f, site, g):
+        for atom, truth in (g.truths(site) or []):
+            if not truth:
+                continue
+            a = strip_all(atom)
+            if a is None:
+                continue
+            if a.get("k") == "DeclRefExpr" and a.get("dk") == "Var":
+                for v in f.walk():
+                    if v.get("k") == "VarDecl" and v.get("d") == a.get("d") and v.get("c"):
+                        for x in walk(v["c"][0]):
+                            if is_call(x) and (notpl(x.get("q") or "").endswith("::scan_for") or
+                                               any(t.uid in scan_like for t in prog.call_targets(f, x))):
+                                return True
+            if is_call(a) and (notpl(a.get("q") or "").endswith("::scan_for") or any(t.uid in scan_like for t in prog.call_targets(f, a))):
+                return True
+        return False
+    guards = {}
+
+    def unwitnessed_entry(f, depth, seen):
+        """A chain of callers from f up to a function nobody calls, none of whose links is witnessed; or None."""
+        if depth > 5 or f.uid in seen:
+            return None
+        seen = seen | {f.uid}
+        sites = []
+        for gfn in fns:
+            for n in gfn.walk():
+                if is_call(n) and f in prog.call_targets(gfn, n):
+                    sites.append((gfn, n))
+        if not sites:
+            return [f.qn]
+        for gfn, n in sites:
+            gd = guards.setdefault(gfn.uid, Guards(gfn))
+            if witnessed(gfn, n, gd):
+                continue
+            up = unwitnessed_entry(gfn, depth + 1, seen)
+            if up is not None:
+                return [f.qn + " @ " + gfn.loc(n)] + up
+        return None
+    for f in fns:
+        for n in f.walk():
+            if not is_call(n) or not notpl(n.get("q") or "").endswith("BitStream::getbit"):
+                continue
+            key = "%s::%s::getbit" % (f.relfile(), f.qn)
+            gd = guards.setdefault(f.uid, Guards(f))
+            if witnessed(f, n, gd):
+                r.add(key, f.loc(n), True, "after a successful scan in the same function")
+                continue
+            chain = unwitnessed_entry(f, 0, set())
+            r.add(key, f.loc(n), chain is None, "every caller reaches this only after a scan succeeded" if chain is None else
+                  "getbit is reached without any scan having succeeded (%s): on a track without data size() has wrapped "
+                  "to a huge value, the index bound means nothing and the read is far outside the buffer" % " <- ".join(chain[:4]))
+    return r
+
+
 def run(ctx):
     from . import c06, c10
     prog = ctx.prog("dfs", "N")
@@ -1573,7 +1665,7 @@ def run(ctx):
             rule_diagnosed_failures(prog), rule_nonempty_access(prog),
             c06.rule_track_checks_unconditional(prog, rule_id="R-C07-11"),
             c10.rule_counters_after_reset(prog, rule_id="R-C07-12"), rule_side_effect_results(prog),
-            rule_rewind_changes_state(prog)]
+            rule_rewind_changes_state(prog), rule_bitstream_access(prog)]
 
 
 SELFTESTS = [
